@@ -149,6 +149,10 @@ pub fn check_history(ctx: &RunCtx) -> RunStats {
         if matches!(d.kind, Kind::FutDesync | Kind::After) && ld(&r.resolve) != 0 && (ld(&r.end) == 0 || ld(&r.end) > ld(&r.resolve)) {
             ctx.sink.report("C07", "resolved_before_operation_finished", "early_resolve".into(), format!("op {}: resolved at {}, finished at {}", i, ld(&r.resolve), ld(&r.end)));
         }
+        // C08: the operation of future_sync runs only when its future is awaited: never before the first poll
+        if d.kind == Kind::FutSync && ld(&r.start) != 0 && (ld(&r.polled_at) == 0 || ld(&r.start) < ld(&r.polled_at)) {
+            ctx.sink.report("C08", "future_sync_ran_without_being_polled", "fs_before_poll".into(), format!("op {}: closure invoked at {}, the returned future was first polled at {} (0 = never)", i, ld(&r.start), ld(&r.polled_at)));
+        }
         // C08: a cancelled future_sync never starts after the drop of its future has returned
         if d.kind == Kind::FutSync && ld(&r.dropped_at) != 0 && ld(&r.start) > ld(&r.dropped_at) {
             ctx.sink.report("C08", "future_sync_started_after_cancel", "fs_after_cancel".into(), format!("op {}: future dropped at {}, closure invoked at {}", i, ld(&r.dropped_at), ld(&r.start)));
@@ -330,7 +334,7 @@ pub fn history_json(ctx: &RunCtx, j: &mut Json) {
         j.kv_num("inv", ld(&r.inv)).kv_num("ret", ld(&r.ret)).kv_num("start", ld(&r.start)).kv_num("end", ld(&r.end)).kv_num("resolve", ld(&r.resolve));
         j.kv_num("runs", r.runs.load(ORD)).kv_num("suspensions", r.pendings.load(ORD)).kv_num("runner_class", r.runner.load(ORD));
         j.kv_bool("ran_on_calling_thread", r.run_tid.load(ORD) == r.call_tid.load(ORD)).kv_num("outcome", r.outcome.load(ORD));
-        j.kv_num("waiter_polls_before_result", r.wait_polls.load(ORD)).kv_bool("cancelled", r.cancelled.load(ORD)).kv_num("future_dropped_at", ld(&r.dropped_at));
+        j.kv_num("first_polled_at", ld(&r.polled_at)).kv_num("waiter_polls_before_result", r.wait_polls.load(ORD)).kv_bool("cancelled", r.cancelled.load(ORD)).kv_num("future_dropped_at", ld(&r.dropped_at));
         if d.kind == Kind::Suspend { j.kv_num("resumer_used_at", ld(&ctx.resume_stamp[i])); }
         j.end_obj();
     }
